@@ -61,6 +61,8 @@ def check(src, rep):
     rep.count("p1_step_paths", len(p.paths))
     eg = p1model.exit_and_guard(p)
     emit_p(rep, p, eg, {"release": "R1", "cap": "R2", "trip": "R3", "unconsumed": "R4"})
+    # a call that returns while complete lines are still buffered consumes at most one readout but buffers a whole chunk: with chunks holding several readouts the backlog grows with the stream
+    emit_p(rep, p, [r for r in eg if r.tag == "exit" and r.instance == "early-return"], {"exit": "R2"})
     emit_p(rep, p, [r for r in p1model.buffer_contracts(p) if r.instance in ("pop", "clear", "trim-to-position", "trim-to-start", "trim-keeps-consumed")], {"buffer": "R1", "release": "R1"})
     # every call that buffers a non-empty chunk reaches the length guard (no return before it)
     emit_p(rep, p, [r for r in p1model.skeleton(p) if r.tag == "growth"], {"growth": "R2"})
